@@ -569,9 +569,14 @@ async def _run_host_case(case):
 
     def deliver_to_host():
         data = from_ctrl.pop(0)
-        if reply_of(data):
+        is_reply = reply_of(data) is not None
+        if is_reply:
             trace.append(['deliver'])
-        host.on_packet(data)
+        try:
+            host.on_packet(data)
+        except Exception as e:      # noqa
+            if is_reply:
+                trace.append(['host-error', type(e).__name__])
 
     next_id = [0]
 
@@ -656,6 +661,8 @@ def host_oracle(trace, callers, hung, expect_block=False):
                 return ('B:wrong-response', f'caller {ev[1]} sent {ops.get(ev[1]):#06x} and was resumed with the response to {ev[2]:#06x}')
         elif ev[0] == 'failed':
             return ('B:caller-failed', f'send_command of caller {ev[1]} raised ({callers[ev[1]][1]})')
+        elif ev[0] == 'host-error':
+            return ('B:host-error', f'Host.on_packet raised {ev[1]} on a Command Complete/Status event')
     if not expect_block:
         waiting = sorted(c for c, (op, st) in callers.items() if st == 'pending')
         if hung or waiting:
@@ -917,11 +924,15 @@ def proc_scenarios():
                ('p3', hci.HCI_Accept_Connection_Request_Command(bd_addr=A(ADDR_CUT), role=1))], [(0x03, None)]))
     S.append(('classic-create/peer-absent', 'link1', [('cut', classic_create(ADDR_ABSENT))], [(0x03, None)]))
     S.append(('classic-create/no-peers', 'link0', [('cut', classic_create(ADDR_ABSENT))], [(0x03, None)]))
-    # two Create Connection commands for the same peer are both accepted: two completions are due
+    # a second Create Connection for a peer being connected: every accepted one must be completed
     S.append(('classic-create/twice-same-peer', 'link2conn-noclassic',
               [('cut', classic_create(ADDR_P3)), ('settle',), ('cut', classic_create(ADDR_P3)), ('settle',),
                ('p3', hci.HCI_Accept_Connection_Request_Command(bd_addr=A(ADDR_CUT), role=1))],
-              [(0x03, None), (0x03, None)]))
+              [('accepted', 0x0405, (0x03, None))]))
+    S.append(('classic-create/already-connected', 'link2conn',
+              [('cut', classic_create(ADDR_P3)), ('settle',),
+               ('p3', hci.HCI_Accept_Connection_Request_Command(bd_addr=A(ADDR_CUT), role=1))],
+              [('accepted', 0x0405, (0x03, None))]))
     # --- disconnection
     S.append(('disconnect/le/peer-present', 'link1conn', [('cut', disc('le'))], [DISC]))
     S.append(('disconnect/le-peripheral/peer-present', 'link1conn_p', [('cut', disc('le'))], [DISC]))
@@ -1048,11 +1059,18 @@ def proc_oracle(name, expect, log, packets):
         if len(mine) != sum(1 for o, _ in log if o == op):
             return (f'C:{name}:replies', f'command {op:#06x}: {len(mine)} reply events')
     codes = [event_code(p) for p in packets]
+    counted = [e for e in expect if e[0] == 'accepted']
+    expect = [e for e in expect if e[0] != 'accepted']
+    for _, op, ev in counted:
+        accepted = sum(1 for r in replies if r[1] == op and r[0] == 'CS' and r[3] == 0)
+        if codes.count(ev) < accepted:
+            return (f'C:{name}:no-completion', f'{accepted} commands {op:#06x} accepted with status PENDING, '
+                                               f'{codes.count(ev)} completion events code={ev[0]:#04x}')
     for e in set(expect):
         if codes.count(e) < expect.count(e):
             return (f'C:{name}:no-completion', f'completion event code={e[0]:#04x} subevent={e[1]} expected {expect.count(e)}x, '
                                                f'arrived {codes.count(e)}x; events seen: {[c for c in codes if c]}')
-    if not expect:
+    if not expect and not counted:
         # the command must have been refused: no reply with status 0 (pending / accepted)
         last = [r for r in replies if r[1] == log[-1][0]]
         if last and last[-1][0] == 'CS' and last[-1][3] == 0:
@@ -1189,8 +1207,6 @@ async def _run_proc_ops(ops):
                                                        encrypted_diversifier=0, long_term_key=bytes(16))
             model_ops.append(f'Cmd (Encrypt {o[1]})')
         elif kind == 'ClassicCreate':
-            if o[1] in pending_classic or o[1] in br_conn:
-                continue        # D03k witness class: excluded here, exhibited by its own scenario
             cmd = hci.HCI_Create_Connection_Command(bd_addr=A(o[1]), packet_type=0xCC18, page_scan_repetition_mode=0,
                                                     reserved=0, clock_offset=0, allow_role_switch=1)
             model_ops.append(f'Cmd (ClassicCreate {o[1]})')
@@ -1379,7 +1395,9 @@ def run(ctx):
                 'with an unregistered opcode + random bytes mixed in; non-trivial: every case (a real Controller '
                 'answers); distinct by content. (B) 1-8 tasks x 1-3 commands through a real Host, controller = real '
                 'Controller or scripted replies with 1..255 credits behind two FIFOs drained on seeded loop turns; '
-                'non-trivial: >= 2 callers. (C) 29 named procedure scenarios on real controllers + LocalLink.')
+                'non-trivial: >= 2 callers; plus every class through a real Host to a real Controller. (C) 32 named procedure '
+                'scenarios on real controllers + LocalLink; random settled sequences of 7 procedure commands and 4 peer '
+                'actions on CUT + 2 peers compared event by event with Model/CtrlProc.v; non-trivial: >= 3 executed steps.')
     ctx.assumptions += [
         'asyncio runs a coroutine atomically up to its next await (Model/HostCmd.v cuts _send_command there)',
         'the controller contract of (B) is what (A) establishes: one reply per command, in order, >= 1 credit, no '
